@@ -134,6 +134,9 @@ def reference(v):
 
 
 def run(repo, res):
+    _ns, _np = R.shape_stats(repo)
+    res.extra['e1_shapes_interpreted'] = _ns
+    res.extra['e1_shape_paths_interpreted'] = _np
     lint = repo.module_func(LINTER, 'lint')
     loops = [n for n in lint.body if isinstance(n, ast.For) and 'all_names' in unparse(n.iter)]
     if len(loops) != 1:
